@@ -668,4 +668,183 @@ theorem parsedPub_serialize (p : HDPub) (v w : Bytes) : (parsedPub p v).serializ
   split <;> rfl
 
 
+/-! ## walks on both sides, combine_bip32_paths, blind_xpub -/
+
+section
+variable (hmac : Bytes → Bytes → Bytes) (h160 : Bytes → Bytes)
+
+theorem pub_childI_some {p q : HDPub} {i : Int} (h : p.childI hmac h160 i = some q) :
+    0 ≤ i ∧ i < 2 ^ 31 ∧ p.child hmac h160 i.toNat = some q := by
+  by_cases h1 : 2 ^ 31 ≤ i
+  · rw [pub_childI_hardened hmac h160 p i h1] at h; cases h
+  · by_cases h2 : i < 0
+    · rw [pub_childI_neg hmac h160 p i h2] at h; cases h
+    · refine ⟨by omega, by omega, ?_⟩
+      have c1 : cmpOpI Gen.hdPubHardOp i Gen.hdPubHardT = false := by
+        simp [cmpOpI, Gen.hdPubHardOp, Gen.hdPubHardT]; omega
+      have c2 : cmpOpI Gen.hdPubNegOp i Gen.hdPubNegT = false := by
+        simp [cmpOpI, Gen.hdPubNegOp, Gen.hdPubNegT]; omega
+      unfold HDPub.childI at h
+      rw [if_neg (by rw [c1]; decide), if_neg (by rw [c2]; decide)] at h
+      exact h
+
+theorem priv_childI_nonneg (k : HDPriv) {i : Int} (h : 0 ≤ i) :
+    k.childI hmac h160 i = k.child hmac h160 i.toNat := by
+  have c : cmpOpI Gen.hdPrivNegOp i Gen.hdPrivNegT = false := by
+    simp [cmpOpI, Gen.hdPrivNegOp, Gen.hdPrivNegT]; omega
+  unfold HDPriv.childI
+  rw [if_neg (by rw [c]; decide)]
+
+theorem pubIndex_some {c : Str} {i : Int} (h : pubIndex c = some i) : privIndex c = some i := by
+  unfold pubIndex at h
+  unfold privIndex
+  split at h
+  · cases h
+  · rename_i hne
+    rw [if_neg hne]; exact h
+
+/-- whenever both the private and the public walk over the same components succeed, they arrive at the
+    same public key -/
+theorem priv_pub_walk_consistent_rel (hg : GroupAdd) (cs : List Str) (k k' : HDPriv) (q : HDPub)
+    (hk : k.walk hmac h160 cs = some k') (hq : k.pub.walk hmac h160 cs = some q) : q = k'.pub := by
+  induction cs generalizing k with
+  | nil =>
+    simp only [HDPriv.walk, HDPub.walk] at hk hq
+    cases hk; cases hq; rfl
+  | cons c cs ih =>
+    simp only [HDPub.walk, Option.bind_eq_bind, Option.bind_eq_some_iff] at hq
+    obtain ⟨i, hi, q1, hq1, hq⟩ := hq
+    obtain ⟨h0, h31, hc⟩ := pub_childI_some hmac h160 hq1
+    simp only [HDPriv.walk, pubIndex_some hi, Option.bind_eq_bind, Option.bind_some, priv_childI_nonneg hmac h160 k h0,
+      Option.bind_eq_some_iff] at hk
+    obtain ⟨k1, hk1, hk⟩ := hk
+    have hlt : i.toNat < 2 ^ 31 := by omega
+    have := child_pub_consistent_rel hmac h160 hg k i.toNat hlt k1 hk1
+    rw [this] at hc
+    cases hc
+    exact ih k1 hk hq
+
+theorem priv_traverse_m (k : HDPriv) : k.traverse hmac h160 ['m'] = some k := by
+  simp [HDPriv.traverse, normPath, lower, replaceChar, startsWith, components, split, HDPriv.walk, List.isPrefixOf]
+
+theorem pub_traverse_m (p : HDPub) : p.traverse hmac h160 ['m'] = some p := by
+  simp [HDPub.traverse, normPath, lower, replaceChar, startsWith, components, split, HDPub.walk, List.isPrefixOf]
+
+theorem valid_forgive_shape {s : Str} (h : isValidBip32Path s = true) :
+    forgive s = ['m'] ∨ ∃ rest, forgive s = 'm' :: '/' :: rest := by
+  unfold isValidBip32Path at h
+  simp only [] at h
+  by_cases h1 : forgive s = ['m']
+  · exact Or.inl h1
+  · right
+    rw [if_neg h1] at h
+    by_cases h2 : startsWith ['m', '/'] (forgive s) = true
+    · generalize forgive s = f at h2
+      match f, h2 with
+      | [], h2 => simp [startsWith, List.isPrefixOf] at h2
+      | [a], h2 => simp [startsWith, List.isPrefixOf] at h2
+      | a :: b :: rest, h2 =>
+        simp [startsWith, List.isPrefixOf] at h2
+        exact ⟨rest, by rw [h2.1, h2.2]⟩
+    · rw [if_pos h2] at h; cases h
+
+theorem combinePaths_some {p s full : Str} (h : combinePaths p s = some full) :
+    isValidBip32Path p = true ∧ isValidBip32Path s = true ∧
+      full = (if forgive p = ['m'] then forgive s else if forgive s = ['m'] then forgive p
+              else forgive p ++ '/' :: (forgive s).drop 2) := by
+  unfold combinePaths at h
+  by_cases h1 : isValidBip32Path p = true
+  · by_cases h2 : isValidBip32Path s = true
+    · rw [if_neg (by simp [h1]), if_neg (by simp [h2])] at h
+      refine ⟨h1, h2, ?_⟩
+      simp only [] at h
+      split at h
+      · next hp => cases h; rw [if_pos hp]
+      · next hp =>
+        rw [if_neg hp]
+        split at h
+        · next hs => cases h; rw [if_pos hs]
+        · next hs => cases h; rw [if_neg hs]
+    · rw [if_neg (by simp [h1]), if_pos (by simp [h2])] at h; cases h
+  · rw [if_pos (by simp [h1])] at h; cases h
+
+/-- the key at the combined path is the key at the second path below the key at the first path -/
+theorem combine_traverse_priv (k : HDPriv) (p s full : Str) (h : combinePaths p s = some full) :
+    k.traverse hmac h160 full
+      = (k.traverse hmac h160 (forgive p)).bind (fun k' => k'.traverse hmac h160 (forgive s)) := by
+  obtain ⟨-, hs, hfull⟩ := combinePaths_some h
+  subst hfull
+  by_cases hp1 : forgive p = ['m']
+  · rw [if_pos hp1, hp1, priv_traverse_m]; rfl
+  · rw [if_neg hp1]
+    by_cases hs1 : forgive s = ['m']
+    · rw [if_pos hs1, hs1]
+      simp only [priv_traverse_m]
+      cases k.traverse hmac h160 (forgive p) <;> rfl
+    · rw [if_neg hs1]
+      rcases valid_forgive_shape hs with h' | ⟨rest, h'⟩
+      · exact absurd h' hs1
+      · rw [h']
+        exact priv_traverse_append hmac h160 k (forgive p) rest
+
+theorem combine_traverse_pub (k : HDPub) (p s full : Str) (h : combinePaths p s = some full) :
+    k.traverse hmac h160 full
+      = (k.traverse hmac h160 (forgive p)).bind (fun k' => k'.traverse hmac h160 (forgive s)) := by
+  obtain ⟨-, hs, hfull⟩ := combinePaths_some h
+  subst hfull
+  by_cases hp1 : forgive p = ['m']
+  · rw [if_pos hp1, hp1, pub_traverse_m]; rfl
+  · rw [if_neg hp1]
+    by_cases hs1 : forgive s = ['m']
+    · rw [if_pos hs1, hs1]
+      simp only [pub_traverse_m]
+      cases k.traverse hmac h160 (forgive p) <;> rfl
+    · rw [if_neg hs1]
+      rcases valid_forgive_shape hs with h' | ⟨rest, h'⟩
+      · exact absurd h' hs1
+      · rw [h']
+        exact pub_traverse_append hmac h160 k (forgive p) rest
+
+/-- blind_xpub, unfolded: what it parses, checks, derives and returns -/
+theorem blindXpub_some (hash256 : Bytes → Bytes) {x p s cx full : Str}
+    (h : blindXpub hash256 hmac h160 x p s = some (cx, full)) :
+    ∃ X c, HDPub.parse hash256 x = some X ∧ X.depth = count '/' p ∧ X.traverse hmac h160 s = some c ∧
+      c.xpub hash256 none = some cx ∧ combinePaths p s = some full := by
+  simp only [blindXpub, Option.bind_eq_bind, Option.pure_def, Option.bind_eq_some_iff] at h
+  obtain ⟨X, hX, h⟩ := h
+  by_cases hd : X.depth = count '/' p
+  · simp only [hd, ne_eq, not_true_eq_false, if_false, Option.bind_eq_some_iff] at h
+    obtain ⟨c, hc, cx', hcx, full', hfull, hr⟩ := h
+    cases hr
+    exact ⟨X, c, hX, hd, hc, hcx, hfull⟩
+  · simp [hd] at h
+
+theorem priv_pub_traverse_consistent_rel (hg : GroupAdd) (path : Str) (k k' : HDPriv) (q : HDPub)
+    (hk : k.traverse hmac h160 path = some k') (hq : k.pub.traverse hmac h160 path = some q) : q = k'.pub := by
+  unfold HDPriv.traverse at hk
+  unfold HDPub.traverse at hq
+  simp only [] at hk hq
+  by_cases hs : startsWith ['m'] (normPath path) = true
+  · rw [if_neg (by simp [hs])] at hk hq
+    exact priv_pub_walk_consistent_rel hmac h160 hg _ k k' q hk hq
+  · rw [if_pos (by simp [hs])] at hk; cases hk
+
+/-- blind_xpub returns the key found at the combined path from the root: if `x` parses to the public key
+    of the key at `p` below `root`, and the key at the combined path exists, its xpub is the one returned.
+    Paths are taken in the normal form that `combine_bip32_paths` produces (`forgive p = p`). -/
+theorem blind_is_key_at_combined_path_rel (hash256 : Bytes → Bytes) (hg : GroupAdd) (root kp kf : HDPriv)
+    (x p s cx full : Str) (hp : forgive p = p) (hs : forgive s = s)
+    (hkp : root.traverse hmac h160 p = some kp) (hx : HDPub.parse hash256 x = some kp.pub)
+    (hb : blindXpub hash256 hmac h160 x p s = some (cx, full))
+    (hkf : root.traverse hmac h160 full = some kf) :
+    kf.pub.xpub hash256 none = some cx := by
+  obtain ⟨X, c, hX, -, hc, hcx, hfull⟩ := blindXpub_some hmac h160 hash256 hb
+  rw [hx] at hX; cases hX
+  rw [combine_traverse_priv hmac h160 root p s full hfull, hp, hs, hkp] at hkf
+  simp only [Option.bind_some] at hkf
+  have := priv_pub_traverse_consistent_rel hmac h160 hg s kp kf c hkf hc
+  rw [← this]; exact hcx
+
+end
+
 end Buidl.HD
